@@ -277,7 +277,31 @@ def cmd_setup():
         shutil.rmtree(scratch, ignore_errors=True)
 
 
-HOOK_COMMITS = []
+def cmd_baseline(tags=""):
+    """Run the repository's own test suite (guard off unless tags given) and compare with BASELINE stable_pass."""
+    base = json.load(open("/root/.vp/BASELINE.json"))
+    want = set(base["stable_pass"])
+    e = dict(os.environ)
+    e.update({"GOPROXY": "off", "GOSUMDB": "off", "GOTOOLCHAIN": "local"})
+    e.pop("GOFLAGS", None)
+    passed = set()
+    for m in MODS.split():
+        cmd = ["go", "test", "-json", "-vet=off", "-count=1", "-timeout", "25m"] + (["-tags", tags] if tags else []) + ["./..."]
+        p = subprocess.run(cmd, cwd=os.path.join(repo(), m), env=e, stdout=subprocess.PIPE, stderr=subprocess.DEVNULL, text=True)
+        for line in p.stdout.splitlines():
+            try:
+                ev = json.loads(line)
+            except Exception:
+                continue
+            if ev.get("Action") == "pass" and ev.get("Test"):
+                passed.add("%s::%s" % (ev["Package"], ev["Test"]))
+    missing = sorted(want - passed)
+    print("baseline: %d/%d stable tests pass (tags=%r)" % (len(want) - len(missing), len(want), tags))
+    for m in missing[:20]:
+        print("  MISSING " + m)
+    return 0 if not missing else 1
+
+
 
 MODS = "go/conformance/test-read-conformance go/conformance/test-write-conformance go/mcap go/ros"
 
@@ -294,7 +318,7 @@ def cmd_manifest():
         "hooks": {
             "guard": "verif",
             "enable": "go build tag: the harness test binaries are built with `go test -c -tags verif` against the working tree of /repo (module replace)",
-            "baseline_off_cmd": "export GOFLAGS=-mod=mod GOPROXY=off GOSUMDB=off GOTOOLCHAIN=local; for m in %s; do (cd /repo/$m && go test -json -vet=off -count=1 -timeout 25m ./...); done" % MODS,
+            "baseline_off_cmd": "export GOPROXY=off GOSUMDB=off GOTOOLCHAIN=local; unset GOFLAGS; for m in %s; do (cd /repo/$m && go test -json -vet=off -count=1 -timeout 25m ./...); done" % MODS,
             "source_commits": hooks.get("source_commits", []),
             "add_only": True,
         },
@@ -337,7 +361,11 @@ def main():
     r.add_argument("file")
     sub.add_parser("setup")
     sub.add_parser("manifest")
+    b = sub.add_parser("baseline")
+    b.add_argument("--tags", default="")
     a = ap.parse_args()
+    if a.cmd == "baseline":
+        sys.exit(cmd_baseline(a.tags))
     if a.cmd == "manifest":
         sys.exit(cmd_manifest())
     if a.cmd == "check":
